@@ -1221,7 +1221,7 @@ pub fn configs(prop: SProp, tier: Tier) -> Vec<SCfg> {
             for n in 1..=3usize {
                 for limit in [None, Some(1)] {
                     for rb in [1usize, 2] {
-                        for (fl, cap) in [(Flavour::Always, 1usize), (Flavour::Coupled, 1), (Flavour::Coupled, 2), (Flavour::Indep, 1)] {
+                        for (fl, cap) in [(Flavour::Always, 1usize), (Flavour::Coupled, 1), (Flavour::Coupled, 2), (Flavour::Indep, 1), (Flavour::FlushFrees, 1)] {
                             for pol in finish_policies(n) {
                                 if !thorough && n == 3 && (rb == 2 || limit.is_some() || pol.iter().filter(|b| !**b).count() > 1) {
                                     continue;
@@ -1440,6 +1440,24 @@ pub fn configs(prop: SProp, tier: Tier) -> Vec<SCfg> {
                                 }
                             }
                         }
+                        // id reuse right after a cancellation (no application-side drops in this
+                        // alphabet, DESIGN.md section 7): what is tracked follows the requests,
+                        // not the ids
+                        if rb == 1 {
+                            for (f1, f2) in [(false, false), (true, false), (false, true)] {
+                                let rs = vec![ReqCfg::simple(1, false), ReqCfg::cancel_of(1), ReqCfg::simple(1, f1), ReqCfg::simple(2, f2)];
+                                // (the tracked count is only observable on the requests() route)
+                                for route in [Route::Requests] {
+                                    for burst in [false, true] {
+                                        let mut c = base(rs.clone(), limit, rb, *fl, *cap, S_CANCEL | S_FINISH | S_DRAIN | S_ADVANCE | S_DUP);
+                                        c.route = route;
+                                        c.burst = burst;
+                                        c.reuse_after_end = true;
+                                        out.push(c);
+                                    }
+                                }
+                            }
+                        }
                     }
                 }
             }
@@ -1462,6 +1480,27 @@ pub fn configs(prop: SProp, tier: Tier) -> Vec<SCfg> {
                                 if n <= 3 && rb == 1 {
                                     let mut c = base(reqs, Some(l), rb, *fl, *cap, alpha);
                                     c.route = Route::Execute;
+                                    out.push(c);
+                                }
+                            }
+                        }
+                    }
+                    // a peer that cancels a request and reuses its id at once, then sends more:
+                    // the count must follow the requests, not the ids (seeded change C12c: an
+                    // aborted handler's guard untracked the request that had taken over its id).
+                    // No application-side handler drops in this alphabet (DESIGN.md section 7).
+                    if (1..=2).contains(&l) {
+                        for (f1, f2) in [(false, false), (true, false), (false, true), (true, true)] {
+                            let mut rs = vec![ReqCfg::simple(1, false), ReqCfg::cancel_of(1), ReqCfg::simple(1, f1), ReqCfg::simple(2, f2)];
+                            if l == 2 {
+                                rs.push(ReqCfg::simple(3, false));
+                            }
+                            for route in [Route::Requests, Route::Execute] {
+                                for burst in [false, true] {
+                                    let mut c = base(rs.clone(), Some(l), 1, *fl, *cap, alpha);
+                                    c.route = route;
+                                    c.burst = burst;
+                                    c.reuse_after_end = true;
                                     out.push(c);
                                 }
                             }
@@ -1493,6 +1532,7 @@ pub fn configs(prop: SProp, tier: Tier) -> Vec<SCfg> {
                 (Flavour::Coupled, 2),
                 (Flavour::Indep, 1),
                 (Flavour::Indep, 2),
+                (Flavour::FlushFrees, 1),
             ] {
                 for limit in [None, Some(0), Some(1), Some(2)] {
                     for n in 1..=3usize {
